@@ -56,6 +56,7 @@ type NodeSpec struct {
 	ForkLen         int    `json:"fork_len,omitempty"` // forker: length of its own (lighter) branch
 	Cap             int    `json:"cap,omitempty"`      // reply cap (0 = 2000)
 	DisconnectAtMsg int    `json:"disconnect_at_msg,omitempty"`
+	OffendOnce      bool   `json:"offend_once,omitempty"`       // forbidden: after it has delivered the forbidden header once the node follows the honest chain
 	VersionLag      int    `json:"version_lag,omitempty"`       // the node's version message reports a height this many blocks below its chain: it found blocks while it was being synced from
 	DropAfterHeight int    `json:"drop_after_height,omitempty"` // the node closes the connection right after the getheaders answer that contains this height
 	Silent          bool   `json:"silent,omitempty"`            // never answers getheaders (stall)
@@ -434,6 +435,13 @@ func Execute(s *Scenario, dir string) (res *Result) {
 			n.DisconnectAtMsg = ns.DisconnectAtMsg
 			n.DropAfterHeight = ns.DropAfterHeight
 			n.VersionLag = ns.VersionLag
+			if ns.Kind == "forbidden" && !ns.OrphanForbidden && x.w.Forbidden != nil {
+				n.MarkHash = x.w.Forbidden.HashOf()
+			}
+			if ns.Kind == "forbidden" && ns.OffendOnce && !ns.OrphanForbidden {
+				n.RepentAfterHeight = ns.ForbiddenAt
+				n.RepentChain = append([]refmodel.Hdr(nil), x.w.Honest...)
+			}
 			n.Silent = ns.Silent
 			n.MaxAccepts = ns.MaxAccepts
 			n.MaxLive = ns.MaxLive
